@@ -102,6 +102,9 @@ class SemgrepResultSet(ResultSet):
 
         result_set = cls()
         for sarif_run in data["runs"]:
+            # a SARIF file may also hold runs of other tools: they are not ours to read
+            if "tool" in sarif_run and not SemgrepSarifToolDetector.detect(sarif_run):
+                continue
             for result in sarif_run["results"]:
                 sarif_result = SemgrepResult.from_sarif(
                     result, sarif_run, truncate_rule_id
